@@ -464,36 +464,34 @@ impl MDL {
         )
         .ok()?;
 
-        let mut affected_bone_names = vec![];
+        // Everything below follows counts, indices and offsets stored in the file. A damaged file can point
+        // them anywhere, so each one is checked and the model is rejected (None) instead of panicking.
 
-        for offset in &model.bone_name_offsets {
-            let mut offset = *offset;
+        // names are nul-terminated strings inside the string block
+        let read_name = |offset: u32| -> Option<String> {
+            let mut offset = offset as usize;
             let mut string = String::new();
 
-            let mut next_char = model.header.strings[offset as usize] as char;
+            let mut next_char = *model.header.strings.get(offset)? as char;
             while next_char != '\0' {
                 string.push(next_char);
                 offset += 1;
-                next_char = model.header.strings[offset as usize] as char;
+                next_char = *model.header.strings.get(offset)? as char;
             }
 
-            affected_bone_names.push(string);
+            Some(string)
+        };
+
+        let mut affected_bone_names = vec![];
+
+        for offset in &model.bone_name_offsets {
+            affected_bone_names.push(read_name(*offset)?);
         }
 
         let mut material_names = vec![];
 
         for offset in &model.material_name_offsets {
-            let mut offset = *offset;
-            let mut string = String::new();
-
-            let mut next_char = model.header.strings[offset as usize] as char;
-            while next_char != '\0' {
-                string.push(next_char);
-                offset += 1;
-                next_char = model.header.strings[offset as usize] as char;
-            }
-
-            material_names.push(string);
+            material_names.push(read_name(*offset)?);
         }
 
         let mut lods = vec![];
@@ -501,12 +499,14 @@ impl MDL {
         for i in 0..model.header.lod_count {
             let mut parts = vec![];
 
-            for j in model.lods[i as usize].mesh_index
-                ..model.lods[i as usize].mesh_index + model.lods[i as usize].mesh_count
-            {
-                let declaration = &model.header.vertex_declarations[j as usize];
-                let vertex_count = model.meshes[j as usize].vertex_count;
-                let material_index = model.meshes[j as usize].material_index;
+            let lod = model.lods.get(i as usize)?;
+            let index_data_offset = *model_file_header.index_offsets.get(i as usize)?;
+
+            for j in lod.mesh_index..lod.mesh_index.checked_add(lod.mesh_count)? {
+                let mesh = model.meshes.get(j as usize)?;
+                let declaration = model.header.vertex_declarations.get(j as usize)?;
+                let vertex_count = mesh.vertex_count;
+                let material_index = mesh.material_index;
 
                 let mut vertices: Vec<Vertex> = vec![Vertex::default(); vertex_count as usize];
 
@@ -514,14 +514,13 @@ impl MDL {
                     for element in &declaration.elements {
                         cursor
                             .seek(SeekFrom::Start(
-                                (model.lods[i as usize].vertex_data_offset
-                                    + model.meshes[j as usize].vertex_buffer_offsets
-                                        [element.stream as usize]
-                                    + element.offset as u32
-                                    + model.meshes[j as usize].vertex_buffer_strides
-                                        [element.stream as usize]
-                                        as u32
-                                        * k as u32) as u64,
+                                lod.vertex_data_offset as u64
+                                    + *mesh.vertex_buffer_offsets.get(element.stream as usize)?
+                                        as u64
+                                    + element.offset as u64
+                                    + *mesh.vertex_buffer_strides.get(element.stream as usize)?
+                                        as u64
+                                        * k as u64,
                             ))
                             .ok()?;
 
@@ -529,36 +528,34 @@ impl MDL {
                             VertexUsage::Position => match element.vertex_type {
                                 VertexType::Single4 => {
                                     vertices[k as usize].position.clone_from_slice(
-                                        &MDL::read_single4(&mut cursor).unwrap()[0..3],
+                                        &MDL::read_single4(&mut cursor).ok()?[0..3],
                                     );
                                 }
                                 VertexType::Half4 => {
                                     vertices[k as usize].position.clone_from_slice(
-                                        &MDL::read_half4(&mut cursor).unwrap()[0..3],
+                                        &MDL::read_half4(&mut cursor)?[0..3],
                                     );
                                 }
                                 VertexType::Single3 => {
                                     vertices[k as usize].position =
-                                        MDL::read_single3(&mut cursor).unwrap();
+                                        MDL::read_single3(&mut cursor).ok()?;
                                 }
                                 _ => {
-                                    panic!(
-                                        "Unexpected vertex type for position: {:#?}",
-                                        element.vertex_type
-                                    );
+                                    // a position encoding this reader does not know
+                                    return None;
                                 }
                             },
                             VertexUsage::BlendWeights => match element.vertex_type {
                                 VertexType::ByteFloat4 => {
                                     vertices[k as usize].bone_weight =
-                                        MDL::read_byte_float4(&mut cursor).unwrap();
+                                        MDL::read_byte_float4(&mut cursor)?;
                                 }
                                 VertexType::Byte4 => {
                                     vertices[k as usize].bone_weight =
-                                        MDL::read_tangent(&mut cursor).unwrap();
+                                        MDL::read_tangent(&mut cursor)?;
                                 }
                                 VertexType::UnsignedShort4 => {
-                                    let bytes = MDL::read_unsigned_short4(&mut cursor).unwrap();
+                                    let bytes = MDL::read_unsigned_short4(&mut cursor).ok()?;
                                     vertices[k as usize].bone_weight = [
                                         f32::from(bytes[0]),
                                         f32::from(bytes[1]),
@@ -567,19 +564,17 @@ impl MDL {
                                     ];
                                 }
                                 _ => {
-                                    panic!(
-                                        "Unexpected vertex type for blendweight: {:#?}",
-                                        element.vertex_type
-                                    );
+                                    // a blendweight encoding this reader does not know
+                                    return None;
                                 }
                             },
                             VertexUsage::BlendIndices => match element.vertex_type {
                                 VertexType::Byte4 => {
                                     vertices[k as usize].bone_id =
-                                        MDL::read_byte4(&mut cursor).unwrap();
+                                        MDL::read_byte4(&mut cursor).ok()?;
                                 }
                                 VertexType::UnsignedShort4 => {
-                                    let shorts = MDL::read_unsigned_short4(&mut cursor).unwrap();
+                                    let shorts = MDL::read_unsigned_short4(&mut cursor).ok()?;
                                     vertices[k as usize].bone_id = [
                                         shorts[0] as u8,
                                         shorts[1] as u8,
@@ -588,70 +583,62 @@ impl MDL {
                                     ];
                                 }
                                 _ => {
-                                    panic!(
-                                        "Unexpected vertex type for blendindice: {:#?}",
-                                        element.vertex_type
-                                    );
+                                    // a blendindice encoding this reader does not know
+                                    return None;
                                 }
                             },
                             VertexUsage::Normal => match element.vertex_type {
                                 VertexType::Half4 => {
                                     vertices[k as usize].normal.clone_from_slice(
-                                        &MDL::read_half4(&mut cursor).unwrap()[0..3],
+                                        &MDL::read_half4(&mut cursor)?[0..3],
                                     );
                                 }
                                 VertexType::Single3 => {
                                     vertices[k as usize].normal =
-                                        MDL::read_single3(&mut cursor).unwrap();
+                                        MDL::read_single3(&mut cursor).ok()?;
                                 }
                                 _ => {
-                                    panic!(
-                                        "Unexpected vertex type for normal: {:#?}",
-                                        element.vertex_type
-                                    );
+                                    // a normal encoding this reader does not know
+                                    return None;
                                 }
                             },
                             VertexUsage::UV => match element.vertex_type {
                                 VertexType::ByteFloat4 => {
-                                    let combined = MDL::read_byte_float4(&mut cursor).unwrap();
+                                    let combined = MDL::read_byte_float4(&mut cursor)?;
 
                                     vertices[k as usize].uv0.clone_from_slice(&combined[0..2]);
                                     vertices[k as usize].uv1.clone_from_slice(&combined[2..4]);
                                 }
                                 VertexType::Half4 => {
-                                    let combined = MDL::read_half4(&mut cursor).unwrap();
+                                    let combined = MDL::read_half4(&mut cursor)?;
 
                                     vertices[k as usize].uv0.clone_from_slice(&combined[0..2]);
                                     vertices[k as usize].uv1.clone_from_slice(&combined[2..4]);
                                 }
                                 VertexType::Single4 => {
-                                    let combined = MDL::read_single4(&mut cursor).unwrap();
+                                    let combined = MDL::read_single4(&mut cursor).ok()?;
 
                                     vertices[k as usize].uv0.clone_from_slice(&combined[0..2]);
                                     vertices[k as usize].uv1.clone_from_slice(&combined[2..4]);
                                 }
                                 VertexType::Half2 => {
-                                    let combined = MDL::read_half2(&mut cursor).unwrap();
+                                    let combined = MDL::read_half2(&mut cursor)?;
 
                                     vertices[k as usize].uv0.clone_from_slice(&combined[0..2]);
                                 }
                                 _ => {
-                                    panic!(
-                                        "Unexpected vertex type for uv: {:#?}",
-                                        element.vertex_type
-                                    );
+                                    // a uv encoding this reader does not know
+                                    return None;
                                 }
                             },
                             VertexUsage::BiTangent => match element.vertex_type {
                                 VertexType::ByteFloat4 => {
                                     vertices[k as usize].bitangent =
-                                        MDL::read_tangent(&mut cursor).unwrap();
+                                        MDL::read_tangent(&mut cursor)?;
                                 }
                                 _ => {
-                                    panic!(
-                                        "Unexpected vertex type for bitangent: {:#?}",
-                                        element.vertex_type
-                                    );
+                                    // a bitangent encoding this reader does not know
+                                    return None;
                                 }
                             },
                             VertexUsage::Tangent => {
@@ -659,23 +646,19 @@ impl MDL {
                                     // Used for... terrain..?
                                     VertexType::ByteFloat4 => {}
                                     _ => {
-                                        panic!(
-                                            "Unexpected vertex type for tangent: {:#?}",
-                                            element.vertex_type
-                                        );
+                                        // a tangent encoding this reader does not know
+                                    return None;
                                     }
                                 }
                             }
                             VertexUsage::Color => match element.vertex_type {
                                 VertexType::ByteFloat4 => {
                                     vertices[k as usize].color =
-                                        MDL::read_byte_float4(&mut cursor).unwrap();
+                                        MDL::read_byte_float4(&mut cursor)?;
                                 }
                                 _ => {
-                                    panic!(
-                                        "Unexpected vertex type for color: {:#?}",
-                                        element.vertex_type
-                                    );
+                                    // a color encoding this reader does not know
+                                    return None;
                                 }
                             },
                         }
@@ -684,30 +667,26 @@ impl MDL {
 
                 cursor
                     .seek(SeekFrom::Start(
-                        (model_file_header.index_offsets[i as usize]
-                            + (model.meshes[j as usize].start_index * size_of::<u16>() as u32))
-                            as u64,
+                        index_data_offset as u64
+                            + (mesh.start_index as u64 * size_of::<u16>() as u64),
                     ))
                     .ok()?;
 
                 // TODO: optimize!
-                let mut indices: Vec<u16> =
-                    Vec::with_capacity(model.meshes[j as usize].index_count as usize);
-                for _ in 0..model.meshes[j as usize].index_count {
+                // (the index count is not used to reserve memory: it may be damaged)
+                let mut indices: Vec<u16> = Vec::new();
+                for _ in 0..mesh.index_count {
                     indices.push(cursor.read_le::<u16>().ok()?);
                 }
 
-                let mut submeshes: Vec<SubMesh> =
-                    Vec::with_capacity(model.meshes[j as usize].submesh_count as usize);
-                for i in 0..model.meshes[j as usize].submesh_count {
+                let mut submeshes: Vec<SubMesh> = Vec::with_capacity(mesh.submesh_count as usize);
+                for i in 0..mesh.submesh_count {
+                    let submesh_index = mesh.submesh_index as usize + i as usize;
+                    let submesh = model.submeshes.get(submesh_index)?;
                     submeshes.push(SubMesh {
-                        submesh_index: model.meshes[j as usize].submesh_index as usize + i as usize,
-                        index_count: model.submeshes
-                            [model.meshes[j as usize].submesh_index as usize + i as usize]
-                            .index_count,
-                        index_offset: model.submeshes
-                            [model.meshes[j as usize].submesh_index as usize + i as usize]
-                            .index_offset,
+                        submesh_index,
+                        index_count: submesh.index_count,
+                        index_offset: submesh.index_offset,
                     });
                 }
 
@@ -718,11 +697,9 @@ impl MDL {
                     let affected_shape_mesh: Vec<&ShapeMesh> = model
                         .shape_meshes
                         .iter()
-                        .skip(shape.shape_mesh_start_index[i as usize] as usize)
-                        .take(shape.shape_mesh_count[i as usize] as usize)
-                        .filter(|shape_mesh| {
-                            shape_mesh.mesh_index_offset == model.meshes[j as usize].start_index
-                        })
+                        .skip(*shape.shape_mesh_start_index.get(i as usize)? as usize)
+                        .take(*shape.shape_mesh_count.get(i as usize)? as usize)
+                        .filter(|shape_mesh| shape_mesh.mesh_index_offset == mesh.start_index)
                         .collect();
 
                     let shape_values: Vec<&ShapeValue> = affected_shape_mesh
@@ -735,12 +712,9 @@ impl MDL {
                                 .take(shape_mesh.shape_value_count as usize)
                         })
                         .filter(|shape_value| {
-                            shape_value.base_indices_index
-                                >= model.meshes[j as usize].start_index as u16
+                            shape_value.base_indices_index >= mesh.start_index as u16
                                 && shape_value.base_indices_index
-                                    < (model.meshes[j as usize].start_index
-                                        + model.meshes[j as usize].index_count)
-                                        as u16
+                                    < mesh.start_index.wrapping_add(mesh.index_count) as u16
                         })
                         .collect();
 
@@ -748,29 +722,20 @@ impl MDL {
 
                     if !shape_values.is_empty() {
                         for shape_value in shape_values {
-                            let old_vertex =
-                                vertices[indices[shape_value.base_indices_index as usize] as usize];
-                            let new_vertex = vertices[shape_value.replacing_vertex_index as usize];
-                            let vertex = &mut morphed_vertices
-                                [indices[shape_value.base_indices_index as usize] as usize];
+                            let base_vertex_index =
+                                *indices.get(shape_value.base_indices_index as usize)? as usize;
+                            let old_vertex = *vertices.get(base_vertex_index)?;
+                            let new_vertex =
+                                *vertices.get(shape_value.replacing_vertex_index as usize)?;
+                            let vertex = morphed_vertices.get_mut(base_vertex_index)?;
 
                             vertex.position[0] = new_vertex.position[0] - old_vertex.position[0];
                             vertex.position[1] = new_vertex.position[1] - old_vertex.position[1];
                             vertex.position[2] = new_vertex.position[2] - old_vertex.position[2];
                         }
 
-                        let mut offset = shape.string_offset;
-                        let mut string = String::new();
-
-                        let mut next_char = model.header.strings[offset as usize] as char;
-                        while next_char != '\0' {
-                            string.push(next_char);
-                            offset += 1;
-                            next_char = model.header.strings[offset as usize] as char;
-                        }
-
                         shapes.push(Shape {
-                            name: string,
+                            name: read_name(shape.string_offset)?,
                             morphed_vertices,
                         });
                     }
@@ -778,20 +743,17 @@ impl MDL {
 
                 let mut vertex_streams = vec![];
                 let mut vertex_stream_strides = vec![];
-                let mesh = &model.meshes[j as usize];
                 for stream in 0..mesh.vertex_stream_count {
                     let mut vertex_data = vec![];
-                    let stride = mesh.vertex_buffer_strides[stream as usize];
+                    let stride = *mesh.vertex_buffer_strides.get(stream as usize)?;
                     for z in 0..mesh.vertex_count {
                         // TODO: read the entire vertex data into a buffer
                         // Handle the offsets within Novus itself
                         cursor
                             .seek(SeekFrom::Start(
-                                (model.lods[i as usize].vertex_data_offset
-                                    + model.meshes[j as usize].vertex_buffer_offsets
-                                        [stream as usize]
-                                    + (z as u32 * stride as u32))
-                                    as u64,
+                                lod.vertex_data_offset as u64
+                                    + *mesh.vertex_buffer_offsets.get(stream as usize)? as u64
+                                    + (z as u64 * stride as u64),
                             ))
                             .ok()?;
 
@@ -801,8 +763,7 @@ impl MDL {
                     }
 
                     vertex_streams.push(vertex_data);
-                    vertex_stream_strides
-                        .push(mesh.vertex_buffer_strides[stream as usize] as usize);
+                    vertex_stream_strides.push(stride as usize);
                 }
 
                 parts.push(Part {
